@@ -33,6 +33,7 @@ from suds.sax import splitPrefix, Namespace
 from suds.sax.element import Element
 
 from logging import getLogger
+from urllib.parse import urljoin
 log = getLogger(__name__)
 
 
@@ -78,6 +79,7 @@ class SchemaCollection(UnicodeMixin):
             self.namespaces[key] = schema
         else:
             self.__keep_element_form(schema.root, existing.root)
+            self.__keep_locations(schema, existing)
             existing.root.children += schema.root.children
             # The moved children still resolve prefixes through their own
             # schema node; do not rebind prefixes the existing node's content
@@ -101,6 +103,22 @@ class SchemaCollection(UnicodeMixin):
                 continue
             if node.get("ref") is None and node.get("form") is None:
                 node.set("form", form)
+
+    @staticmethod
+    def __keep_locations(schema, target):
+        """
+        Relative locations in a consolidated schema node get resolved against
+        the target node's base URL: make them absolute when the two differ.
+
+        """
+        if schema.baseurl == target.baseurl:
+            return
+        for node in schema.root.children:
+            if node.name not in ("import", "include"):
+                continue
+            location = node.get("schemaLocation")
+            if location and "://" not in location:
+                node.set("schemaLocation", urljoin(schema.baseurl, location))
 
     def load(self, options, loaded_schemata):
         """
